@@ -75,7 +75,7 @@ def member(draw, dim, cls, modes, hetero, maxn=8):
 
 
 @st.composite
-def specs(draw):
+def specs(draw, tier="quick"):
     kind = draw(st.sampled_from(["Emulsion", "EmulsionTimeCourse", "DropletTrack", "DropletTrackList"]))
     dim = draw(st.integers(1, 3))
     cls = draw(st.sampled_from(CLASSES[dim]))
@@ -99,7 +99,58 @@ def specs(draw):
         n = draw(st.one_of(st.integers(0, 6), st.integers(0, 6), st.integers(10, 13)))
         spec["members"] = [draw(member(dim, cls, modes, hetero, maxn=4 if n < 10 else 2)) for _ in range(n)]
         spec["times"] = [draw(st.lists(_time, min_size=len(m), max_size=len(m))) for m in spec["members"]]
+    if not hetero and draw(st.integers(0, 59)) == 0:
+        # large collections (beyond block sizes, buffer lengths and key widths): many droplets in one member, or many members;
+        # the additional content is a pure function of (n, seed) and is expanded when the case is built
+        ladder = [33, 130, 257, 300, 1025, 1100] if tier == "quick" else [33, 130, 257, 300, 1025, 1100, 2050, 4100]
+        spec["bulk"] = {"what": draw(st.sampled_from(["droplets", "members"] if kind in ("EmulsionTimeCourse", "DropletTrackList") else ["droplets"])), "n": draw(st.sampled_from(ladder)), "seed": draw(st.integers(0, 1000)), "modes": modes}
     return spec
+
+
+def expand_bulk(spec):
+    """the spec with its `bulk` request carried out (see specs)"""
+    b = spec.get("bulk")
+    if not b:
+        return spec
+    rng = np.random.default_rng([b["n"], b["seed"]])
+    kind, dim, cls = spec["kind"], spec["dim"], spec["cls"]
+
+    def one():
+        d = {"cls": cls, "position": [gen.r6(float(x)) for x in rng.uniform(-50, 50, dim)], "radius": gen.r6(float(rng.uniform(0, 5)))}
+        if cls == "PerturbedDroplet3DAxisSym":
+            d["position"][0] = d["position"][1] = 0.0
+        if cls != "SphericalDroplet":
+            d["interface_width"] = None if rng.random() < 0.1 else gen.r6(float(rng.uniform(0, 2)))
+        if cls.startswith("Perturbed"):
+            d["amplitudes"] = [gen.r6(float(x)) for x in rng.uniform(-0.2, 0.2, b["modes"])]
+        return d
+
+    members = [list(m) for m in spec["members"]]
+    times = spec.get("times")
+    out = dict(spec)
+    if b["what"] == "droplets":
+        if not members:
+            members = [[]]
+            if kind == "EmulsionTimeCourse":
+                times = [0.5]
+            elif kind in ("DropletTrack", "DropletTrackList"):
+                times = [[]]
+        i = b["seed"] % len(members)
+        members[i] = members[i] + [one() for _ in range(b["n"])]
+        if kind in ("DropletTrack", "DropletTrackList"):
+            times = [list(t) for t in times]
+            times[i] = times[i] + [gen.r6(float(x)) for x in np.cumsum(rng.uniform(0.01, 2, b["n"]))]
+    else:
+        extra = [[one() for _ in range(int(rng.integers(0, 3)))] for _ in range(b["n"])]
+        members = members + extra
+        if kind == "EmulsionTimeCourse":
+            times = list(times) + [gen.r6(float(x)) for x in rng.uniform(-100, 100, b["n"])]
+        else:
+            times = [list(t) for t in times] + [[gen.r6(float(x)) for x in np.cumsum(rng.uniform(0.01, 2, len(m)))] for m in extra]
+    out["members"] = members
+    if times is not None:
+        out["times"] = times
+    return out
 
 
 def _track(drops, times, build="append"):
@@ -153,7 +204,7 @@ class C08(Property):
         return {"examples": 6000 if tier == "quick" else 80000, "shards": 12 if tier == "quick" else 16}
 
     def strategy(self, tier):
-        return specs()
+        return specs(tier)
 
     _dir = None
 
@@ -170,6 +221,9 @@ class C08(Property):
         import droplets
         from droplets import DropletTrackList, Emulsion, EmulsionTimeCourse
 
+        if spec.get("bulk"):
+            ctx.cls(f"bulk-{spec['bulk']['what']}>={min(1024, spec['bulk']['n'] // 32 * 32)}")
+            spec = expand_bulk(spec)
         kind = spec["kind"]
         members = spec["members"]
         try:
